@@ -180,6 +180,27 @@ def c09_configurator_cache(tier, seed):
                         _viol(r, "c09.configurator-answer-depends-on-other-configurator",
                               {"bounds_first": list(b1 if first is c1 else b2), "bounds_second": list(b2 if second is c2 else b1),
                                "query": q, "id": cid}, got=a2[:200], expected=ref[:200])
+    # ids that differ only by blanks (to_text() strips blanks): every compound id explicit
+    for q in ("ge_polyhedron", "select"):
+        def build2(sp):
+            item = "summer%s18" % sp
+            return cc.StingyConfigurator(cc.Xor(item, "y", "z", default=["y"], variable="X%s1" % sp),
+                                         pg.Imply("y", pg.Any("p", "q", variable="P%sQ" % sp), variable="I%sm" % sp), id="cfg%sid" % sp)
+        outs = []
+        for sp in (" ", ""):
+            cfg = build2(sp)
+            p = cfg.ge_polyhedron
+            if q == "ge_polyhedron":
+                outs.append(sorted(str(v.id) for v in p.variables))
+            else:
+                outs.append(sorted(str(k) for k in list(cfg.select({"p": 1}, solver=dummy_solver))[0][0].keys()))
+            want = sorted([str(x.id) for x in cfg.flatten()] + (["0"] if q == "ge_polyhedron" else []))
+            r["evaluations"] += 1
+            r["_seen"].add(("blank-ids", q))
+            got = outs[-1]
+            if not (set(got) - {"0"} <= set(want)):
+                _viol(r, "c09.configurator-answer-depends-on-other-configurator", {"ids": "blank-variant %r" % sp, "query": q},
+                      got=got, expected=want)
     return _finish(r)
 
 
@@ -230,6 +251,10 @@ def c18_add(tier, seed):
             continue
         if cfg.errors() != []:
             continue
+        if rng.random() < 0.6:
+            # the original may already have been queried (memoized polyhedron / leafs) before it is extended
+            _ = cfg.ge_polyhedron
+            _ = cfg.leafs()
         before = _snapshot(cfg)
         cur = cfg
         ok = True
@@ -264,7 +289,17 @@ def c18_add(tier, seed):
             s2 = json.dumps(list(direct.select(prio, solver=dummy_solver)), default=str)
             if s1 != s2:
                 _viol(r, "c18.solutions-differ", w, prio=prio)
-        # refusal
+        # refusal: also for a rule without explicit id whose (generated) id is already there
+        anon = pg.Any("a", "f")
+        try:
+            twice = cur.add(pickle.loads(pickle.dumps(anon)))
+            try:
+                twice.add(pickle.loads(pickle.dumps(anon)))
+                _viol(r, "c18.duplicate-id-accepted", dict(w, taken="generated id of Any(a,f)"))
+            except Exception:
+                pass
+        except Exception:
+            pass
         for taken in [x[1].id for x in base + extra]:
             try:
                 cur.add(pg.All("a", "b", variable=taken))
